@@ -34,13 +34,15 @@ func TestVerifC13Drafty(t *testing.T) {
 	defer r.Finish()
 	shard, shards := vfev.Shard()
 	texts := []any{nil, "", "a", "hello world", "héllo wörld ✓", "ééé", "👨‍👩‍👧 family", strings.Repeat("long ", 40), 7}
-	ats := []any{nil, -1, 0, 1, 5, 99, "1", 1.5}
-	lens := []any{nil, -1, 0, 1, 3, 99, "x"}
+	// vfHuge: offset + length wraps around the integer range; 1e30 does not fit an integer at all
+	const vfHuge = 9223372036854775000
+	ats := []any{nil, -1, 0, 1, 5, 99, "1", 1.5, vfHuge, 1e30}
+	lens := []any{nil, -1, 0, 1, 3, 99, "x", vfHuge, 1e30}
 	tps := []any{nil, "", "ST", "EM", "BR", "CO", "LN", "MN", "FM", "RW", "XX", 5}
 	keys := []any{nil, 0, 1, -1, 99, "0"}
 	if !vfev.Thorough() {
-		ats = []any{nil, -1, 0, 1, 99, "1"}
-		lens = []any{nil, -1, 0, 3, 99}
+		ats = []any{nil, -1, 0, 1, 99, "1", vfHuge}
+		lens = []any{nil, -1, 0, 3, 99, vfHuge}
 		tps = []any{nil, "ST", "BR", "LN", "FM", "XX", 5}
 		keys = []any{nil, 0, 1, -1, 99}
 	}
@@ -74,8 +76,8 @@ func TestVerifC13Drafty(t *testing.T) {
 	spans = append(spans, "notaspan", nil, 3)
 	// the reduced list used for pairs: offsets / lengths / types which interact (overlap, nesting, out of range)
 	var pairSpans []any
-	for _, a := range []any{-1, 0, 1, 99} {
-		for _, l := range []any{nil, -1, 0, 3, 99} {
+	for _, a := range []any{-1, 0, 1, 99, vfHuge} {
+		for _, l := range []any{nil, -1, 0, 3, 99, vfHuge} {
 			for _, tp := range []any{"ST", "BR", "LN", "FM", "XX"} {
 				m := map[string]any{"at": a, "tp": tp}
 				if l != nil {
